@@ -247,7 +247,9 @@ func (c *gcase) prepare() {
 		if la := ref.BuildLALR(lr0, 20000); la != nil {
 			c.Tab = ref.BuildTable(la)
 			c.LALR1 = len(c.Tab.Cells) == 0
-			c.Clean = !c.Tab.HasDontCare
+			// the reference table is authoritative only where yacc's and yaccgo's documented rule for a
+			// rule's precedence coincide (section 10: don't-care zone)
+			c.Clean = !c.Tab.HasDontCare && !c.G.PrecAmbiguous()
 		}
 	}
 }
